@@ -39,7 +39,7 @@ PART = {
                 "leader's real key (stale epoch, nil / empty terms, expired timeout, threshold below minimum / above n, member dropped, genesis time / "
                 "seed changed, unknown scheme, leader not remaining / leaving / joining, foreign beacon id), forged accept/reject/abort/execute packets "
                 "claiming leader / remainer / joiner / leaver / outsider (well signed or signed by somebody else), replays of recorded packets, commands "
-                "from the wrong node. Directed family 'left' (every 30th history): epoch 1, 1-2 reshares with everybody remaining, a reshare in which "
+                "from the wrong node. Directed family 'left' (every 25th history): epoch 1, 1-2 reshares with everybody remaining, a reshare in which "
                 "node X leaves and the others complete (X holds Left@E, E>=3, finished E-1), optionally one more epoch without X; X is then sent 16 "
                 "invalid invitation classes correctly signed by a current member (stale epochs E, E-1, E-2, epoch 1 in first-proposal shape, expired "
                 "timeout, threshold low/high, unknown scheme, genesis time/seed changed, leader joining/leaving, nil/empty terms, foreign beacon "
